@@ -1591,7 +1591,14 @@ def check_C14(run):
     mlines = ['chan %d %s' % (cap, ' '.join(map(str, sizes))) for cap, sizes in cases]
     model = C.run_model(mlines)
     hlines = ['chan %d %s %d %s' % (cap, m.split('=')[1], len(sizes), ' '.join(map(str, sizes))) for (cap, sizes), m in zip(cases, model)]
-    impl = [a for a, _ in C.run_harness(hlines, timeout=1800)]
+    # in portions: a channel that stalls costs the harness its deadline (12 s) per request and leaves spinning threads behind
+    impl = []
+    for k_ in range(0, len(hlines), 40):
+        part = [a for a, _ in C.run_harness(hlines[k_:k_ + 40], timeout=900)]
+        impl += part
+        if any('STALLED' in a or a.startswith('HARNESS-DIED') for a in part):
+            break
+    cases, model, hlines = cases[:len(impl)], model[:len(impl)], hlines[:len(impl)]
     chan_fail = []
     for (cap, sizes), m_ans, i_ans, hl in zip(cases, model, impl, hlines):
         # independent oracle: a send is admitted iff what was counted before it does not exceed the capacity
@@ -2551,6 +2558,26 @@ def check_C09(run):
                                    fault='link-cut', direction=direction, byte_offset=off, mode=mode, placement=place, args=args, rc=r['rc'], timed_out=r['timeout'], wall_s=round(r['wall'], 1), stderr=r['err'][-600:]))
                 if len(run.violations) >= 2:
                     break
+            shutil.rmtree(base, ignore_errors=True)
+        # ---- the announced data port cannot be reached (the handshake is through, the doer alive and waiting): the boss gives up with a status,
+        # and the doer it launched does not outlive it
+        for k, place in enumerate(['remote-dest', 'remote-src', 'both']):
+            base, src, dst = mk(f'port{k}', 20_000, 2)
+            args = [('localhost:' if place in ('remote-src', 'both') else '') + src + '/', ('localhost:' if place in ('remote-dest', 'both') else '') + dst + '/']
+            r = l4.run_cli(args, env=sb.env({'FAKE_BAD_PORT': '1'}), timeout=WATCHDOG)
+            import time as _t
+            _t.sleep(0.5)
+            left = subprocess.run(['pgrep', '-f', sb.remote + '/rjrssync/rjrssync'], capture_output=True).stdout.split()
+            if left:
+                _t.sleep(3); left = subprocess.run(['pgrep', '-f', sb.remote + '/rjrssync/rjrssync'], capture_output=True).stdout.split()
+            subprocess.run(['pkill', '-f', sb.remote + '/rjrssync/rjrssync'], capture_output=True)
+            run.case(('unreachable-port', place), True, sample=dict(layer='L4', fault='announced port unreachable', placement=place, rc=r['rc'], wall_s=round(r['wall'], 2), doers_left=len(left)))
+            run.count(f'unreachable-port:{place}:rc={r["rc"]}'); run.cov['traces_validated_against_impl'] += 1
+            if r['timeout'] or r['rc'] in (0, None) or left:
+                run.violation(dict(kind='oracle-failed-on-implementation', oracle='when the doer\'s data port cannot be reached the run ends within bounded time with a non-zero status and leaves no doer behind', layer='L4',
+                                   placement=place, args=args, rc=r['rc'], timed_out=r['timeout'], wall_s=round(r['wall'], 1), doers_left=len(left), stderr=r['err'][-500:],
+                                   how='fake ssh replaces the port number in the doer\'s "Waiting for incoming network connection on port N" line by 1'))
+                break
             shutil.rmtree(base, ignore_errors=True)
     finally:
         subprocess.run(['chmod', '-R', 'u+rwx', sb.dir]); sb.close()
